@@ -1,4 +1,6 @@
 import PegVerif.Proofs.SetMemo
+import PegVerif.Proofs.RefineLR
+import PegVerif.Proofs.NonVacuity
 /-
   C05 – `@memoize` never changes what is accepted or the tree that is returned.
 
@@ -59,5 +61,79 @@ example :
       | some (.ok _ st, g) => (st.off, g.cache.length)
       | _ => (99, 99)
     (run (fun _ => false) = (2, 0) ∧ run (fun n => n == "A") = (2, 1)) = true := by decide
+
+/-- **Transparency in grammars that also have `@leftrec` rules** – the property's own scope: "rules that are
+    not part of a left-recursive cycle".  `LROk` (decidable, SpecLR.lean) holds of a grammar whose left recursion
+    goes through `@leftrec` rules only and whose cycles reach no `@memoize` rule (nor another `@leftrec` rule)
+    before input is consumed; both memo variants must be in the class, i.e. the markers sit outside the cycles. -/
+theorem C05_transparent_with_leftrec (env : Env) (M M' : String → Bool) (hp : PureHooks env.hooks)
+    (hok : LROk (env.g.setMemo M) env.settings) (hok' : LROk (env.g.setMemo M') env.settings)
+    {rule : String} {inp : List UInt8} {u n n' : Nat} {r r' g g'}
+    (h : parseAdvanced (env.setMemo M) n rule inp u = some (r, g))
+    (h' : parseAdvanced (env.setMemo M') n' rule inp u = some (r', g')) :
+    abs r = abs r' :=
+  memo_transparentLR env M M' hp hok hok' h h'
+
+/-- non-vacuity: in the calculator tower, `@memoize` on `F` and/or `Num` (outside the cycles) stays in the class;
+    a `@memoize` rule *inside* a cycle does not (and there the model really answers differently: RefineLR.lean,
+    `LRExample.ind`) -/
+example : LROk (LRExample.calcEnv.g.setMemo (fun n => n == "F" || n == "Num")) LRExample.calcEnv.settings ∧
+    LROk (LRExample.calcEnv.g.setMemo (fun _ => false)) LRExample.calcEnv.settings ∧
+    ¬ LROk (LRExample.ind [.memoize]).g (LRExample.ind [.memoize]).settings := by decide
+
+/-! ## non-vacuity (BEGIN) -/
+namespace C05_nv
+open Peg.NV
+
+/-! instance: `NV.envH []` = `@export S = a:Num '+' b:Num | a:Num '-' b:Num | w:Word; @string Num = {'0'..'9'}+; …`
+    on `"1-2"`, memo sets `M = {Num}` and `M' = ∅` -/
+def env : Env := envH []
+def M : String → Bool := fun n => n == "Num"
+def M' : String → Bool := fun _ => false
+
+theorem hp : PureHooks env.hooks := pure_default
+theorem hnl : NoLeftrec env.g := noLeftrec_of (by decide)
+
+theorem runM : (parseAdvanced (env.setMemo M) 20 "S" inpH 0).isSome = true := by decide
+theorem runM' : (parseAdvanced (env.setMemo M') 25 "S" inpH 0).isSome = true := by decide
+
+/-- the marker really is set / removed, and the memoized run really has a cache hit and two cache entries while the
+    unmemoized one has none; both return the same tree -/
+example : (((env.setMemo M).g.findRule "Num").map (·.flags.memoize) = some true) ∧
+    (((env.setMemo M').g.findRule "Num").map (·.flags.memoize) = some false) := by decide
+example : (match parseAdvanced (env.setMemo M) 20 "S" inpH 0, parseAdvanced (env.setMemo M') 25 "S" inpH 0 with
+    | some (.ok v s, g), some (.ok v' s', g') =>
+        v.render == "S { a: Some(S\"31\"), b: Some(S\"32\"), w: None }" && v'.render == v.render && s.off == 3 && s'.off == 3
+        && hits g.log == 1 && g.cache.length == 2 && hits g'.log == 0 && g'.cache.length == 0
+    | _, _ => false) = true := by decide
+
+/-- `C05_transparent` / `C05_refines_spec` instantiated (different fuels on purpose) -/
+example : abs ((parseAdvanced (env.setMemo M) 20 "S" inpH 0).get runM).1 =
+    abs ((parseAdvanced (env.setMemo M') 25 "S" inpH 0).get runM').1 :=
+  C05_transparent env M M' hp hnl "S" inpH 0 20 25 (run_eq runM) (run_eq runM')
+example : ∃ m, Spec.parse env 0 m "S" inpH = some (abs ((parseAdvanced (env.setMemo M) 20 "S" inpH 0).get runM).1) :=
+  C05_refines_spec env M hp hnl "S" inpH 0 20 (run_eq runM)
+example : Spec.eval (env.setMemo M) 0 20 = Spec.eval env 0 20 := C05_spec_ignores_memo env M 0 20
+
+/-! `C05_cache_invariant` from a NON-empty cache: first `Num` is called at offset 0 from the fresh global (this gives a
+    `Good` global whose cache holds `("Num", 0)`), then `S` is evaluated from that global – both `Num` calls at offset
+    0 are now cache hits -/
+def envM : Env := envH [.memoize]
+theorem hnlM : NoLeftrec envM.g := noLeftrec_of (by decide)
+theorem first_some : ((eval envM 20).rule "Num" (St.new inpH) (Global.init 0)).isSome = true := by decide
+def g1 : Global := (((eval envM 20).rule "Num" (St.new inpH) (Global.init 0)).get first_some).2
+theorem g1_good : Good envM 0 inpH g1 :=
+  C05_cache_invariant envM pure_default hnlM inpH 0 20 "Num" (St.new inpH) (Global.init 0)
+    (wf_of (by decide)) (C05_fresh envM 0 inpH).2 (run_eq first_some)
+example : (g1.lookup ("Num", 0)).isSome = true ∧ g1.cache.length = 1 := by decide
+theorem second_some : ((eval envM 20).rule "S" (St.new inpH) g1).isSome = true := by decide
+example : Good envM 0 inpH (((eval envM 20).rule "S" (St.new inpH) g1).get second_some).2 :=
+  C05_cache_invariant envM pure_default hnlM inpH 0 20 "S" (St.new inpH) g1 (wf_of (by decide)) g1_good (run_eq second_some)
+example : (match (eval envM 20).rule "S" (St.new inpH) g1 with
+    | some (.ok _ s, g) => s.off == 3 && hits g.log == 2 && bodyEvals g.log "Num" 0 == 1 && g.cache.length == 2
+    | _ => false) = true := by decide
+
+end C05_nv
+/-! ## non-vacuity (END) -/
 
 end Peg.Props
